@@ -348,6 +348,7 @@ def run(F, rep, tier):
     rep.floor(r4, "simple-type evaluators", nav, 8)
     allowed_values_rules(F, rep)
     result_type_allowed_values_rule(F, rep)
+    builtin_type_names_rule(F, rep)
     # ---------------- premises: "conforms" is FeelType::is_conformant / coerced over Value::type_of; their structural rules (C16) are re-evaluated here,
     # because a slip there changes which inputs and results pass the type check
     from props import c16
@@ -446,3 +447,39 @@ def result_type_allowed_values_rule(F, rep):
             rep.violation(rid, key, "the %s of an item definition never reads its allowed values (%d functions under %s): a value outside them passes as a %s" % (
                 label.split(" (")[1].rstrip(")"), len(fns), prefix.replace(ME, ""), "result" if "results" in label else "input"), "%s:%s" % (h0["file"], h0["line"]))
     rep.floor(rid, "uses of an item definition", n, 2)
+
+
+def builtin_type_names_rule(F, rep):
+    """R11.8: "a built-in FEEL type" as the declared type of input data.  build_variable_evaluator dispatches on the text of the typeRef; a name it does not list is looked up as an
+    item definition (and the value becomes null when there is none).  Its list must contain every simple type name the sibling table type_ref_to_feel_type knows, and `Any` -
+    the top of the type lattice, a built-in type name of dmntk_feel (FEEL_TYPE_NAME_ANY), to which every value conforms."""
+    rid = rep.rule("R11.8", "the input-variable builder lists every built-in type name: those of type_ref_to_feel_type and Any")
+
+    def names(fn):
+        h = F.hir.get(fn)
+        if h is None:
+            rep.missing_anchor(rid, fn)
+            return None, None
+        out = set()
+        for m, _ in find_hir(h["body"], lambda x: x.get("k") == "Match" and x.get("src") == "Normal"):
+            for arm in m["arms"]:
+                for lit, _ in find_hir(arm["p"], lambda x: x.get("k") == "Lit" and isinstance(x.get("v"), str)):
+                    out.add(lit["v"])
+        return out, h
+    have, h = names(ME + "builders::build_variable_evaluator")
+    ref, _ = names(ME + "builders::type_ref_to_feel_type")
+    if have is None or ref is None:
+        return
+    where = "%s:%s" % (h["file"], h["line"])
+    need = set(ref) | {"Any"}
+    if not have:
+        rep.undecided(rid, "type-names:input-variables", "build_variable_evaluator does not dispatch on string literals")
+        return
+    for nm in sorted(need):
+        key = "type-name:%s" % nm
+        if nm in have:
+            rep.ok(rid, key, "listed")
+        else:
+            rep.violation(rid, key, "build_variable_evaluator has no arm for the built-in type name `%s`: an input data variable of that type is looked up as an item definition and "
+                          "every value becomes null" % nm, where)
+    rep.floor(rid, "built-in type names", len(need), 9)
